@@ -167,6 +167,20 @@ Proof. intro H. unfold ucontb. destruct (zlen rest =? 0) eqn:E; [lia|reflexivity
 Lemma ucontb_can rest p : can_step_without_input p = true -> ucontb rest p = true.
 Proof. intro H. unfold ucontb. rewrite H. cbn [negb]. rewrite andb_false_r. reflexivity. Qed.
 
+Lemma reaches_ufix X p s rest d n : reaches X (UR p s rest d unilE) n ->
+  match X with UR p1 s1 r1 d1 e1 => if unil e1 then X else UR (uset_err p1 e1) s1 r1 d1 e1 | c => c end = X.
+Proof.
+  intro H. destruct X as [p1 s1 r1 d1 e1|w]; [|reflexivity].
+  destruct (unil e1) eqn:E; [reflexivity|]. exfalso.
+  specialize (H 0%nat). cbn [ufu_cont] in H. rewrite E in H. cbn [negb] in H. rewrite orb_true_r in H.
+  rewrite unil_nil in H. cbn [negb] in H. rewrite orb_false_r in H.
+  destruct d.
+  - inversion H. subst e1. discriminate E.
+  - destruct ((zlen rest =? 0) && negb (can_step_without_input p)).
+    + inversion H. subst e1. discriminate E.
+    + cbn [ufeed_until] in H. discriminate H.
+Qed.
+
 (* one more step, then the rest *)
 Lemma reaches_step_then p s rest Y n : ucontb rest p = true ->
   reaches (uexec_step p s rest) Y n -> reaches (UR p s rest false unilE) Y (1 + n).
@@ -305,6 +319,9 @@ Definition ufix (r : ures) : ures :=
 
 Lemma ufix_ok p s rest d : ufix (UR p s rest d unilE) = UR p s rest d unilE.
 Proof. reflexivity. Qed.
+
+Lemma ufix_reaches X p s rest d n : reaches X (UR p s rest d unilE) n -> ufix X = X.
+Proof. apply reaches_ufix. Qed.
 
 Lemma uexec_step_eq p s b : uexec_step p s b = ubody (uexec 2) p s b.
 Proof. reflexivity. Qed.
@@ -448,10 +465,26 @@ Proof.
   apply take_some in H as (_ & _ & _ & _ & -> & Hl). rewrite zlen_app. lia.
 Qed.
 
+(* elements of typed containers of zero-sized values consume no input *)
+Definition zpay (m : Z) : nat := if (m =? mZ) || (m =? mT) || (m =? mF) then 0%nat else 2%nat.
+
+Definition vwrap (p : uparser) (r : ures) : ures :=
+  if zlen (up_stack p) =? 0 then r else value_nodone r.
+
+Lemma vwrap_nd p q s rest e : vwrap p (UR q s rest false e) = UR q s rest false e.
+Proof. unfold vwrap. destruct (zlen (up_stack p) =? 0); reflexivity. Qed.
+
+Lemma vwrap_after p vt s rest : vwrap p (after_val (uset_vtype p vt) s rest) = after_val (uset_vtype p vt) s rest.
+Proof. unfold vwrap, after_val. rewrite stack_vtype. destruct (zlen (up_stack p) =? 0); reflexivity. Qed.
+
+Lemma vwrap_done p s rest : vwrap p (UR p s rest true unilE) = after_val p s rest.
+Proof. unfold vwrap, after_val. destruct (zlen (up_stack p) =? 0); reflexivity. Qed.
+
 (* the payload of a value whose marker m has been read and whose start state st is pushed *)
 Definition pgoal (m : Z) (st : ustate) (b : bytes) (v : cvalue) (rest : bytes) (p : uparser) (s : sink) : Prop :=
   exists t n vt, wf_tree t = true /\ tree_matches (marker_btype m) t = true /\ cv (value_of t) = v /\
-    budget n b rest /\ all_bytes rest = true /\
+    budget (n + zpay m) b rest /\ all_bytes rest = true /\
+    vwrap p (uexec_step (u_push p st) s b) = uexec_step (u_push p st) s b /\
     reaches (uexec_step (u_push p st) s b) (after_val (uset_vtype p vt) (sadd s (flatten t)) rest) n.
 
 (* ====================================================================== *)
@@ -520,7 +553,7 @@ Definition frow (m stp k : Z) (K : nkind) (g : Z -> Z) : Prop :=
   (forall f b, ubj_payload (S f) m b =
      match take k b with Some (a, r) => RValue (CNum (canon_num K (g (be_dec a)))) r | None => RTruncated end) /\
   (forall a, zlen a = k -> all_bytes a = true -> nkind_ok K (g (be_dec a)) = true) /\
-  (forall z, scalar_matches (marker_btype m) (SNum K z) = true) /\ 1 <= k.
+  (forall z, scalar_matches (marker_btype m) (SNum K z) = true) /\ 1 <= k /\ zpay m = 2%nat.
 
 Lemma tm_val bt s r : tree_matches bt (TVal s r) = scalar_matches bt s.
 Proof. destruct bt; reflexivity. Qed.
@@ -529,7 +562,7 @@ Lemma fixed_goal m stp k K g f b v rest p s : frow m stp k K g ->
   ubj_payload (S f) m b = RValue v rest -> all_bytes b = true -> uctx p -> s_fail s = None ->
   pgoal m (mku tFixed stp) b v rest p s.
 Proof.
-  intros (Hms & Htab & Href & Hok & Hmat & Hk) H Hb (Hbuf & Hmk & Hcur & Hv) Hs.
+  intros (Hms & Htab & Href & Hok & Hmat & Hk & Hzp) H Hb (Hbuf & Hmk & Hcur & Hv) Hs.
   rewrite Href in H. destruct (take k b) as [[a r]|] eqn:Ht; [|discriminate].
   inversion H; subst v rest. clear H.
   destruct (take_bytes _ _ _ _ Ht Hb) as [Hba Hbr].
@@ -537,9 +570,12 @@ Proof.
   exists (TVal (SNum K (g (be_dec a))) false), 0%nat, (up_vtype p).
   split; [apply Hok; assumption|]. split; [rewrite tm_val; apply Hmat|]. split; [reflexivity|].
   split; [eapply budget_take; [exact Ht|lia]|]. split; [exact Hbr|].
-  apply reaches_eq. rewrite uexec_step_eq, ex_fixed by reflexivity.
-  rewrite (ustep_fixed_ok _ s b stp k (fun v => EVal (SNum K (g v))) a r) by (try reflexivity; assumption).
-  rewrite upop_state_push by exact Hcur. rewrite vtype_id. reflexivity.
+  assert (HX : uexec_step (u_push p (mku tFixed stp)) s b =
+          after_val (uset_vtype p (up_vtype p)) (sadd s (flatten (TVal (SNum K (g (be_dec a))) false))) r).
+  { rewrite uexec_step_eq, ex_fixed by reflexivity.
+    rewrite (ustep_fixed_ok _ s b stp k (fun v => EVal (SNum K (g v))) a r) by (try reflexivity; assumption).
+    rewrite upop_state_push by exact Hcur. rewrite vtype_id. reflexivity. }
+  rewrite HX. split; [apply vwrap_after|]. apply reaches_refl.
 Qed.
 
 Lemma wraps_in_s_8 z : in_s 8 (wraps 8 z) = true.
@@ -604,8 +640,12 @@ Proof.
   split; [destruct Hc as [(-> & -> & -> & ->)|[(-> & -> & -> & ->)|(-> & -> & -> & ->)]]; reflexivity|].
   split; [destruct Hc as [(-> & -> & -> & ->)|[(-> & -> & -> & ->)|(-> & -> & -> & ->)]]; reflexivity|].
   split; [destruct Hc as [(-> & -> & -> & ->)|[(-> & -> & -> & ->)|(-> & -> & -> & ->)]]; reflexivity|].
-  split; [unfold budget; lia|]. split; [exact Hb|].
-  apply reaches_eq. rewrite uexec_step_eq, ex_fixed by reflexivity. rewrite Hstep, vtype_id. reflexivity.
+  assert (Hzp : zpay m = 0%nat) by (destruct Hc as [(-> & _)|[(-> & _)|(-> & _)]]; reflexivity).
+  split; [rewrite Hzp; unfold budget; lia|]. split; [exact Hb|].
+  assert (HX : uexec_step (u_push p (mku tFixed stp)) s b =
+          after_val (uset_vtype p (up_vtype p)) (sadd s (flatten t0)) b).
+  { rewrite uexec_step_eq, ex_fixed by reflexivity. rewrite Hstep, vtype_id. reflexivity. }
+  rewrite HX. split; [apply vwrap_after|]. apply reaches_refl.
 Qed.
 
 (* ====================================================================== *)
@@ -712,26 +752,640 @@ Proof.
   { rewrite uexec_step_eq. destruct Hm as [[_ ->]|[_ ->]]; [apply ex_string|apply ex_high]; reflexivity. }
   assert (Hmat : forall x r0, tree_matches (marker_btype m) (TVal (SStr x) r0) = true).
   { intros x r0. destruct Hm as [[-> _]|[-> _]]; reflexivity. }
-  assert (Hbud : budget 0 b r').
-  { unfold budget. rewrite Hr1 in Hlen. rewrite zlen_app in Hlen. pose proof (zlen_nonneg a). lia. }
+  assert (Hzp : zpay m = 2%nat) by (destruct Hm as [[-> _]|[-> _]]; reflexivity).
+  assert (Hbud : budget (0 + zpay m) b r').
+  { rewrite Hzp. unfold budget. rewrite Hr1 in Hlen. rewrite zlen_app in Hlen. pose proof (zlen_nonneg a). lia. }
   destruct (n =? 0) eqn:En.
   - assert (Ha0 : a = []) by (apply zlen_zero_nil; lia). assert (N0 : n = 0) by lia.
     clear Hza. subst a. subst n. cbn [app] in Hr1. subst r'.
     exists (TVal (SStr []) false), 0%nat, (up_vtype p).
     split; [reflexivity|]. split; [apply Hmat|]. split; [reflexivity|]. split; [exact Hbud|].
     split; [exact Hbr1|].
-    apply reaches_eq. fold q. rewrite HT. unfold ustep_string.
+    match goal with |- _ /\ reaches ?X ?Y _ => assert (HX : X = Y) end; [|rewrite HX; split; [apply vwrap_after|apply reaches_refl]].
+    fold q. rewrite HT. unfold ustep_string.
     change (u_s (up_cur q)) with sStart. kred. rewrite Hlenstep. rewrite unil_nil. kred.
     change (up_lcur (ul_push (u_push p (mku T sWithLen)) 0)) with 0. kred.
     rewrite uvis_ok by exact Hs. rewrite unil_nil. kred. rewrite Hpop, vtype_id. reflexivity.
   - exists (TVal (SStr a) true), 0%nat, (up_vtype p).
     split; [exact Hba|]. split; [apply Hmat|]. split; [reflexivity|]. split; [exact Hbud|].
     split; [exact Hbr'|].
-    apply reaches_eq. fold q. rewrite HT. unfold ustep_string.
+    match goal with |- _ /\ reaches ?X ?Y _ => assert (HX : X = Y) end; [|rewrite HX; split; [apply vwrap_after|apply reaches_refl]].
+    fold q. rewrite HT. unfold ustep_string.
     change (u_s (up_cur q)) with sStart. kred. rewrite Hlenstep. rewrite unil_nil. kred.
     change (up_lcur (ul_push (u_push p (mku T sWithLen)) n)) with n. rewrite En.
     change (u_s (up_cur (ul_push (u_push p (mku T sWithLen)) n))) with sWithLen. kred.
     rewrite (ucollect_take (ul_push (u_push p (mku T sWithLen)) n) _ _ _ _ Hbuf Ht).
     rewrite uvis_ok by exact Hs. rewrite unil_nil. kred. rewrite Hpop, vtype_id.
     destruct a as [|a0 a']; [rewrite zlen_nil in Hza; lia|]. reflexivity.
+Qed.
+
+(* ====================================================================== *)
+(* Part 7: one value in any context, given its payload                      *)
+(* ====================================================================== *)
+
+Lemma uexec_fuel q s b : u_t (up_cur q) <> tArrayTyped -> uexec 2 q s b = uexec_step q s b.
+Proof.
+  intro H. unfold uexec_step. rewrite !uexec_S. unfold ubody.
+  destruct (u_t (up_cur q) =? tArrayTyped) eqn:E; [lia|]. reflexivity.
+Qed.
+
+Lemma value_marker_cases m : is_value_marker m = true ->
+  m = mZ \/ m = mT \/ m = mF \/ m = mi \/ m = mU \/ m = mI \/ m = ml \/ m = mL \/ m = md \/ m = mD \/
+  m = mH \/ m = mC \/ m = mS \/ m = mObjS \/ m = mArrS.
+Proof.
+  unfold is_value_marker. cbn [existsb]. rewrite !orb_true_iff, !Z.eqb_eq. intro H. repeat (destruct H as [H|H]; [tauto|]). discriminate.
+Qed.
+
+Definition payload_spec (f : nat) : Prop :=
+  forall m st b v rest, ubj_payload f m b = RValue v rest -> is_value_marker m = true ->
+    marker_state m = Some st -> all_bytes b = true ->
+    forall p s, uctx p -> s_fail s = None -> pgoal m st b v rest p s.
+
+(* a value (marker m, then r) read by stepValue in the context p *)
+Definition vgoal (m : Z) (r : bytes) (v : cvalue) (rest : bytes) (p : uparser) (s : sink) : Prop :=
+  exists t n vt, wf_tree t = true /\ tree_matches (marker_btype m) t = true /\ cv (value_of t) = v /\
+    budget (n + 2) (m :: r) rest /\ all_bytes rest = true /\
+    reaches (vwrap p (ustep_value p s (m :: r))) (after_val (uset_vtype p vt) (sadd s (flatten t)) rest) n.
+
+Lemma payload_nonempty f m v rest : ubj_payload f m [] = RValue v rest -> is_value_marker m = true ->
+  zpay m = 0%nat.
+Proof.
+  intros H Hm. destruct f as [|f]; [discriminate|].
+  apply value_marker_cases in Hm.
+  repeat (destruct Hm as [->|Hm]; [try reflexivity; discriminate H|]). subst m. discriminate H.
+Qed.
+
+Lemma ustep_value_push p s m r st : marker_state m = Some st ->
+  (u_s st =? sNil) = false -> (u_s st =? sNoop) = false -> (u_s st =? sTrue) = false ->
+  (u_s st =? sFalse) = false ->
+  ustep_value p s (m :: r) = UR (u_push p st) s r false unilE.
+Proof. intros H H1 H2 H3 H4. unfold ustep_value. rewrite H, H1, H2, H3, H4. reflexivity. Qed.
+
+Lemma vgoal_pushed f m st r v rest p s : payload_spec f ->
+  ubj_payload f m r = RValue v rest -> is_value_marker m = true -> marker_state m = Some st ->
+  (u_s st =? sNil) = false -> (u_s st =? sNoop) = false -> (u_s st =? sTrue) = false ->
+  (u_s st =? sFalse) = false -> zpay m = 2%nat ->
+  all_bytes r = true -> uctx p -> s_fail s = None -> vgoal m r v rest p s.
+Proof.
+  intros Hspec H Hm Hst H1 H2 H3 H4 Hzp Hb Hp Hs.
+  destruct (Hspec m st r v rest H Hm Hst Hb p s Hp Hs) as (t & n & vt & Hwf & Hmat & Hcv & Hbud & Hbr & _ & Hreach).
+  exists t, (1 + n)%nat, vt. split; [exact Hwf|]. split; [exact Hmat|]. split; [exact Hcv|].
+  split.
+  { unfold budget in *. rewrite zlen_cons. pose proof (ztc_cons_ge m r). rewrite Hzp in Hbud. lia. }
+  split; [exact Hbr|].
+  rewrite (ustep_value_push p s m r st Hst H1 H2 H3 H4), vwrap_nd.
+  apply reaches_step_then; [|exact Hreach].
+  apply ucontb_pos. destruct r as [|x r']; [|rewrite zlen_cons; pose proof (zlen_nonneg r'); lia].
+  pose proof (payload_nonempty _ _ _ _ H Hm). lia.
+Qed.
+
+Lemma value_of_payload f m r v rest p s : payload_spec f ->
+  ubj_payload f m r = RValue v rest -> is_value_marker m = true ->
+  all_bytes r = true -> uctx p -> s_fail s = None -> vgoal m r v rest p s.
+Proof.
+  intros Hspec H Hm Hb Hp Hs.
+  pose proof (value_marker_cases m Hm) as Hc.
+  assert (HZ : forall t0 e, (m = mZ \/ m = mT \/ m = mF) ->
+             ustep_value p s (m :: r) = UR p (sadd s [e]) r true unilE -> flatten t0 = [e] ->
+             wf_tree t0 = true -> tree_matches (marker_btype m) t0 = true -> cv (value_of t0) = v -> rest = r ->
+             vgoal m r v rest p s).
+  { intros t0 e Hz Hstep Hfl Hwf Hmat Hcv ->. exists t0, 0%nat, (up_vtype p).
+    split; [exact Hwf|]. split; [exact Hmat|]. split; [exact Hcv|].
+    split; [unfold budget; rewrite zlen_cons; pose proof (ztc_cons_ge m r); lia|]. split; [exact Hb|].
+    rewrite Hstep, vwrap_done, vtype_id, Hfl. apply reaches_refl. }
+  destruct Hc as [->|Hc].
+  { destruct f as [|f]; [discriminate|]. rewrite pl_Z in H. inversion H; subst v rest.
+    apply (HZ (TVal SNil false) (EVal SNil)); auto.
+    unfold ustep_value. change (marker_state mZ) with (Some (mku tFixed sNil)). cbn [u_s u_t mku]. kred.
+    rewrite uvis_ok by exact Hs. reflexivity. }
+  destruct Hc as [->|Hc].
+  { destruct f as [|f]; [discriminate|]. rewrite pl_T in H. inversion H; subst v rest.
+    apply (HZ (TVal (SBool true) false) (EVal (SBool true))); auto.
+    unfold ustep_value. change (marker_state mT) with (Some (mku tFixed sTrue)). cbn [u_s u_t mku]. kred.
+    rewrite uvis_ok by exact Hs. reflexivity. }
+  destruct Hc as [->|Hc].
+  { destruct f as [|f]; [discriminate|]. rewrite pl_F in H. inversion H; subst v rest.
+    apply (HZ (TVal (SBool false) false) (EVal (SBool false))); auto.
+    unfold ustep_value. change (marker_state mF) with (Some (mku tFixed sFalse)). cbn [u_s u_t mku]. kred.
+    rewrite uvis_ok by exact Hs. reflexivity. }
+  repeat (destruct Hc as [->|Hc];
+    [eapply vgoal_pushed; try eassumption; reflexivity|]).
+  subst m. eapply vgoal_pushed; try eassumption; reflexivity.
+Qed.
+
+(* ====================================================================== *)
+(* Part 8: arrays                                                           *)
+(* ====================================================================== *)
+
+Lemma ex_array rec p s b : u_t (up_cur p) = tArray -> ubody rec p s b = ufix
+  match b with
+  | [] => UCrash 14
+  | x :: r =>
+      if x =? mCount then UR (uset_type p tArrayCount) s r false unilE
+      else if x =? mType then UR (uset_type p tArrayTyped) s r false unilE
+      else let '(s1, e) := uvis s (EArrStart (-1) BAny) in UR (uset_type p tArrayDyn) s1 b false e
+  end.
+Proof. intro H. unfold ubody. rewrite H. reflexivity. Qed.
+
+Lemma ex_arrdyn rec p s b : u_t (up_cur p) = tArrayDyn -> ubody rec p s b = ufix
+  match b with
+  | [] => UCrash 15
+  | x :: r =>
+      if x =? mArrE then
+        let '(s1, e) := uvis s EArrEnd in
+        if unil e then let '(p1, d) := upop_state p in UR p1 s1 r d unilE else UR p s1 r true e
+      else
+        let p1 := if u_s (up_cur p) =? sStart then uset_step p sCont else p in
+        value_nodone (ustep_value p1 s b)
+  end.
+Proof. intro H. unfold ubody. rewrite H. reflexivity. Qed.
+
+(* the parser inside an open plain array whose enclosing context is p *)
+Definition dyn (p : uparser) (stp : Z) : uparser := u_push p (mku tArrayDyn stp).
+
+Lemma push_uctx p st : uctx p -> u_t st <> tFail -> uctx (u_push p st).
+Proof. intros (H1 & H2 & H3 & H4) H. split; [exact H1|]. split; [exact H2|]. split; [exact H|exact H4]. Qed.
+
+Lemma dyn_uctx p stp : uctx p -> uctx (dyn p stp).
+Proof. intro H. apply push_uctx; [exact H|discriminate]. Qed.
+
+Lemma push_stack_nonempty p st : u_t (up_cur p) <> tFail -> (zlen (up_stack (u_push p st)) =? 0) = false.
+Proof. intro H. unfold u_push. cbn [up_stack]. rewrite (neq_eqb _ _ H). rewrite zlen_cons.
+  pose proof (zlen_nonneg (up_stack p)). lia. Qed.
+
+Lemma vwrap_push p st r : u_t (up_cur p) <> tFail -> vwrap (u_push p st) r = value_nodone r.
+Proof. intro H. unfold vwrap. rewrite push_stack_nonempty by exact H. reflexivity. Qed.
+
+Lemma after_val_push p st s rest : u_t (up_cur p) <> tFail ->
+  after_val (u_push p st) s rest = UR (u_push p st) s rest false unilE.
+Proof. intro H. unfold after_val. rewrite push_stack_nonempty by exact H. reflexivity. Qed.
+
+Lemma push_vtype p st vt : uset_vtype (u_push p st) vt = u_push (uset_vtype p vt) st.
+Proof. reflexivity. Qed.
+
+Lemma nonempty_pos {A} (l : list A) : l <> [] -> 0 < zlen l.
+Proof. destruct l; [congruence|]. rewrite zlen_cons. pose proof (zlen_nonneg l). lia. Qed.
+
+Lemma arr_plain_nonempty val g b acc v rest : arr_plain val g b acc = RValue v rest -> b <> [].
+Proof. destruct g; [discriminate|]. destruct b; [discriminate|]. discriminate. Qed.
+
+Lemma uvalue_marker f g x r v rest : uvalue f g (x :: r) = RValue v rest -> (x =? mN) = false ->
+  is_value_marker x = true /\ ubj_payload f x r = RValue v rest.
+Proof.
+  destruct g as [|g]; [discriminate|]. rewrite uvalue_S. intros H E. rewrite E in H.
+  destruct (is_value_marker x); [auto|discriminate].
+Qed.
+
+Lemma ustep_value_noop p s r : ustep_value p s (mN :: r) = UR p s r false unilE.
+Proof. reflexivity. Qed.
+
+Lemma arr_plain_loop f : payload_spec f -> forall g b acc v rest,
+  arr_plain (uvalue f f) g b acc = RValue v rest -> all_bytes b = true ->
+  forall p s stp, uctx p -> s_fail s = None -> stp = sStart \/ stp = sCont ->
+  exists ts n vt, v = CArr (rev acc ++ map (fun t => cv (value_of t)) ts) /\
+    forallb wf_tree ts = true /\ budget (n + 2) b rest /\ all_bytes rest = true /\
+    reaches (uexec_step (dyn p stp) s b)
+            (after_val (uset_vtype p vt) (sadd s (flatten_elems ts ++ [EArrEnd])) rest) n.
+Proof.
+  intros Hspec. induction g as [|g IH]; intros b acc v rest H Hb p s stp Hp Hs Hstp; [discriminate|].
+  destruct b as [|h r]; [discriminate|]. rewrite arr_plain_S in H.
+  pose proof Hb as Hb'. rewrite all_bytes_cons in Hb'. apply andb_true_iff in Hb' as [_ Hbr].
+  pose proof Hp as (Hbuf & Hmk & Hcur & Hv).
+  assert (Hstep : uexec_step (dyn p stp) s (h :: r) =
+    ufix (if h =? mArrE then
+        let '(s1, e) := uvis s EArrEnd in
+        if unil e then let '(p1, d) := upop_state (dyn p stp) in UR p1 s1 r d unilE else UR (dyn p stp) s1 r true e
+      else value_nodone (ustep_value (dyn p sCont) s (h :: r)))).
+  { rewrite uexec_step_eq, ex_arrdyn by reflexivity.
+    destruct Hstp as [->| ->]; reflexivity. }
+  rewrite Hstep. clear Hstep.
+  destruct (h =? mArrE) eqn:Eend.
+  - inversion H; subst v rest. clear H. exists [], 0%nat, (up_vtype p).
+    split; [cbn [map]; rewrite app_nil_r; reflexivity|]. split; [reflexivity|].
+    split; [unfold budget; rewrite zlen_cons; pose proof (ztc_cons_ge h r); lia|]. split; [exact Hbr|].
+    apply reaches_eq. rewrite uvis_ok by exact Hs. rewrite unil_nil.
+    unfold dyn. rewrite upop_state_push by exact Hcur. rewrite vtype_id. reflexivity.
+  - destruct (h =? mN) eqn:EN.
+    + assert (h = mN) by lia. subst h. rewrite ustep_value_noop. cbn [value_nodone]. rewrite ufix_ok.
+      destruct (IH r acc v rest H Hbr p s sCont Hp Hs (or_intror eq_refl))
+        as (ts & n & vt & Hv' & Hwf & Hbud & Hbrest & Hreach).
+      exists ts, (1 + n)%nat, vt. split; [exact Hv'|]. split; [exact Hwf|].
+      split; [unfold budget in *; rewrite zlen_cons; pose proof (ztc_cons_ge mN r); lia|].
+      split; [exact Hbrest|].
+      apply reaches_step_then; [|exact Hreach].
+      apply ucontb_pos, nonempty_pos. eapply arr_plain_nonempty; exact H.
+    + destruct (uvalue f f (h :: r)) as [v1 r1| | |] eqn:Hv1; try discriminate.
+      destruct (uvalue_marker _ _ _ _ _ _ Hv1 EN) as [Hm Hpl].
+      destruct (value_of_payload f h r v1 r1 (dyn p sCont) s Hspec Hpl Hm Hbr (dyn_uctx p sCont Hp) Hs)
+        as (t1 & n1 & vt1 & Hwf1 & _ & Hcv1 & Hbud1 & Hbr1 & Hreach1).
+      destruct (IH r1 (v1 :: acc) v rest H Hbr1 (uset_vtype p vt1) (sadd s (flatten t1)) sCont
+                  (uctx_vtype p vt1 Hp) ltac:(rewrite sadd_fail; exact Hs) (or_intror eq_refl))
+        as (ts & n & vt & Hv' & Hwf & Hbud & Hbrest & Hreach).
+      exists (t1 :: ts), (n1 + (1 + n))%nat, vt.
+      split; [rewrite Hv'; cbn [rev map]; rewrite <- app_assoc, Hcv1; reflexivity|].
+      split; [cbn [forallb]; rewrite Hwf1, Hwf; reflexivity|].
+      split; [unfold budget in *; lia|]. split; [exact Hbrest|].
+      unfold dyn in Hreach1 |- *. rewrite vwrap_push in Hreach1 by exact Hcur.
+      unfold after_val in Hreach1. rewrite (ufix_reaches _ _ _ _ _ _ Hreach1).
+      eapply reaches_trans; [exact Hreach1|]. fold (after_val (uset_vtype (u_push p (mku tArrayDyn sCont)) vt1) (sadd s (flatten t1)) r1).
+      rewrite push_vtype, after_val_push by exact Hcur.
+      replace (sadd s (flatten_elems (t1 :: ts) ++ [EArrEnd]))
+        with (sadd (sadd s (flatten t1)) (flatten_elems ts ++ [EArrEnd]))
+        by (rewrite sadd_app, flatten_elems_cons, app_assoc; reflexivity).
+      apply reaches_step_then; [|exact Hreach].
+      apply ucontb_pos, nonempty_pos. eapply arr_plain_nonempty; exact H.
+Qed.
+
+(* ---------- counted arrays ---------- *)
+Definition acount_body (p : uparser) (s : sink) (b : bytes) : ures :=
+  let l := up_lcur p in
+  let '(p1, s1, e0) :=
+    if u_s (up_cur p) =? sWithLen then let '(s1, e) := uvis s (EArrStart l BAny) in (uset_step p sCont, s1, e)
+    else (p, s, unilE) in
+  if negb (unil e0) then UR p1 s1 b false e0
+  else if l =? 0 then
+    let '(s2, e) := uvis s1 EArrEnd in
+    if unil e then let '(p2, d) := upop_len_state p1 in UR p2 s2 b d unilE else UR p1 s2 b true e
+  else
+    match b with
+    | [] => UCrash 16
+    | x :: r =>
+        if x =? mN then UR p1 s1 r false unilE
+        else value_nodone (ustep_value (uset_lcur p1 (up_lcur p1 - 1)) s1 b)
+    end.
+
+Lemma ex_arrcount rec p s b : u_t (up_cur p) = tArrayCount -> (u_s (up_cur p) =? sStart) = false ->
+  ubody rec p s b = ufix (acount_body p s b).
+Proof. intros H H2. unfold ubody. rewrite H, H2. reflexivity. Qed.
+
+Lemma ex_arrcount_start rec p s b : u_t (up_cur p) = tArrayCount -> u_s (up_cur p) = sStart ->
+  ubody rec p s b = ufix (of_ul (ustep_len p b (with_step (up_cur p) sWithLen)) s).
+Proof. intros H H2. unfold ubody. rewrite H, H2. reflexivity. Qed.
+
+Definition cnt (p : uparser) (n : Z) : uparser := ul_push (u_push p (mku tArrayCount sCont)) n.
+
+Lemma vwrap_ne p r : (zlen (up_stack p) =? 0) = false -> vwrap p r = value_nodone r.
+Proof. intro H. unfold vwrap. rewrite H. reflexivity. Qed.
+
+Lemma after_val_ne p s rest : (zlen (up_stack p) =? 0) = false ->
+  after_val p s rest = UR p s rest false unilE.
+Proof. intro H. unfold after_val. rewrite H. reflexivity. Qed.
+
+Lemma cnt_stack p n : u_t (up_cur p) <> tFail -> (zlen (up_stack (cnt p n)) =? 0) = false.
+Proof. intro H. exact (push_stack_nonempty p (mku tArrayCount sCont) H). Qed.
+
+Lemma cnt_uctx p n : uctx p -> uctx (cnt p n).
+Proof. intros (H1 & H2 & H3 & H4). split; [exact H1|]. split; [exact H2|]. split; [discriminate|exact H4]. Qed.
+
+Lemma cnt_vtype p n vt : uset_vtype (cnt p n) vt = cnt (uset_vtype p vt) n.
+Proof. reflexivity. Qed.
+
+Lemma acount_noop p n s r : (n =? 0) = false ->
+  acount_body (cnt p n) s (mN :: r) = UR (cnt p n) s r false unilE.
+Proof.
+  intro H. unfold acount_body. change (u_s (up_cur (cnt p n))) with sCont.
+  change (up_lcur (cnt p n)) with n. kred. rewrite unil_nil, H. reflexivity.
+Qed.
+
+Lemma acount_value p n s x r : (n =? 0) = false -> (x =? mN) = false ->
+  acount_body (cnt p n) s (x :: r) = value_nodone (ustep_value (cnt p (n - 1)) s (x :: r)).
+Proof.
+  intros H Hx. unfold acount_body. change (u_s (up_cur (cnt p n))) with sCont.
+  change (up_lcur (cnt p n)) with n. kred. rewrite unil_nil, H, Hx. reflexivity.
+Qed.
+
+Lemma acount_close p s b : u_t (up_cur p) <> tFail -> s_fail s = None ->
+  acount_body (cnt p 0) s b = after_val p (sadd s [EArrEnd]) b.
+Proof.
+  intros Hc Hs. unfold acount_body. change (u_s (up_cur (cnt p 0))) with sCont.
+  change (up_lcur (cnt p 0)) with 0. kred. rewrite unil_nil. kred.
+  rewrite uvis_ok by exact Hs. rewrite unil_nil.
+  unfold upop_len_state, cnt. rewrite lpop_lpush, upop_state_push by exact Hc. reflexivity.
+Qed.
+
+Lemma acount_withlen p n s b : s_fail s = None ->
+  acount_body (ul_push (u_push p (mku tArrayCount sWithLen)) n) s b =
+  acount_body (cnt p n) (sadd s [EArrStart n BAny]) b.
+Proof.
+  intro Hs. unfold acount_body.
+  change (u_s (up_cur (ul_push (u_push p (mku tArrayCount sWithLen)) n))) with sWithLen.
+  change (u_s (up_cur (cnt p n))) with sCont.
+  change (up_lcur (ul_push (u_push p (mku tArrayCount sWithLen)) n)) with n.
+  change (up_lcur (cnt p n)) with n. kred. rewrite uvis_ok by exact Hs. reflexivity.
+Qed.
+
+Lemma uexec_cnt p n s b : uexec_step (cnt p n) s b = ufix (acount_body (cnt p n) s b).
+Proof. rewrite uexec_step_eq. apply ex_arrcount; reflexivity. Qed.
+
+Lemma uvalue_nonempty f g v rest : uvalue f g [] = RValue v rest -> False.
+Proof. destruct g; discriminate. Qed.
+
+(* the reference decoder's "value" skips no-ops; so does every container loop of the parser *)
+Lemma skip_noops f q : (forall s r, uexec_step q s (mN :: r) = UR q s r false unilE) ->
+  forall g b v1 r1, uvalue f g b = RValue v1 r1 -> all_bytes b = true ->
+  exists k m r, is_value_marker m = true /\ ubj_payload f m r = RValue v1 r1 /\ all_bytes r = true /\
+    Z.of_nat k + 3 * zlen (m :: r) + ztc (m :: r) <= 3 * zlen b + ztc b /\
+    forall s, reaches (uexec_step q s b) (uexec_step q s (m :: r)) k.
+Proof.
+  intros Hq. induction g as [|g IH]; intros b v1 r1 H Hb; [discriminate|].
+  destruct b as [|x r0]; [discriminate|].
+  pose proof Hb as Hb'. rewrite all_bytes_cons in Hb'. apply andb_true_iff in Hb' as [_ Hbr].
+  destruct (x =? mN) eqn:EN.
+  - assert (x = mN) by lia. subst x. rewrite uvalue_S in H. change (mN =? mN) with true in H. cbv iota in H.
+    destruct (IH r0 v1 r1 H Hbr) as (k & m & r & Hm & Hpl & Hbr' & Hbud & Hreach).
+    exists (S k), m, r. split; [exact Hm|]. split; [exact Hpl|]. split; [exact Hbr'|].
+    split; [rewrite (zlen_cons mN r0); pose proof (ztc_cons_ge mN r0); lia|].
+    intro s. rewrite Hq. apply (reaches_step_then q s r0 _ k); [|apply Hreach].
+    apply ucontb_pos, nonempty_pos. intros ->. eapply uvalue_nonempty; exact H.
+  - destruct (uvalue_marker _ _ _ _ _ _ H EN) as [Hm Hpl].
+    exists 0%nat, x, r0. split; [exact Hm|]. split; [exact Hpl|]. split; [exact Hbr|].
+    split; [lia|]. intro s. apply reaches_refl.
+Qed.
+
+Lemma arr_n_nonempty pl g n acc v rest : 0 < n -> arr_n pl g n [] acc = RValue v rest ->
+  (forall v r, pl [] <> RValue v r) -> False.
+Proof.
+  intros Hn H Hpl. destruct g; [rewrite arr_n_O in H|rewrite arr_n_S in H];
+    (destruct (n <=? 0) eqn:E; [lia|]); [discriminate|].
+  destruct (pl []) eqn:E1; try discriminate. exact (Hpl _ _ eq_refl).
+Qed.
+
+Lemma arr_n_zero pl g b acc : arr_n pl g 0 b acc = RValue (CArr (rev acc)) b.
+Proof. destruct g; reflexivity. Qed.
+
+Lemma value_marker_not_noop m : is_value_marker m = true -> (m =? mN) = false.
+Proof. intro H. apply value_marker_not in H. tauto. Qed.
+
+Lemma arr_cnt_loop f : payload_spec f -> forall g n b acc v rest,
+  arr_n (uvalue f f) g n b acc = RValue v rest -> 0 < n -> all_bytes b = true ->
+  forall p s, uctx p -> s_fail s = None ->
+  exists ts m vt, v = CArr (rev acc ++ map (fun t => cv (value_of t)) ts) /\
+    forallb wf_tree ts = true /\ zlen ts = n /\ budget (m + 1) b rest /\ all_bytes rest = true /\
+    reaches (uexec_step (cnt p n) s b)
+            (after_val (uset_vtype p vt) (sadd s (flatten_elems ts ++ [EArrEnd])) rest) m.
+Proof.
+  intros Hspec. induction g as [|g IH]; intros n b acc v rest H Hn Hb p s Hp Hs.
+  { rewrite arr_n_O in H. destruct (n <=? 0) eqn:E; [lia|discriminate]. }
+  rewrite arr_n_S in H. destruct (n <=? 0) eqn:E; [lia|]. clear E.
+  destruct (uvalue f f b) as [v1 r1| | |] eqn:Hv1; try discriminate.
+  pose proof Hp as (Hbuf & Hmk & Hcur & Hv).
+  assert (En : (n =? 0) = false) by lia.
+  destruct (skip_noops f (cnt p n)
+              ltac:(intros s0 r0; rewrite uexec_cnt, acount_noop by exact En; reflexivity)
+              f b v1 r1 Hv1 Hb) as (k & m & r & Hm & Hpl & Hbr & Hbudk & Hskip).
+  destruct (value_of_payload f m r v1 r1 (cnt p (n - 1)) s Hspec Hpl Hm Hbr (cnt_uctx p (n - 1) Hp) Hs)
+    as (t1 & n1 & vt1 & Hwf1 & _ & Hcv1 & Hbud1 & Hbr1 & Hreach1).
+  rewrite vwrap_ne in Hreach1 by (apply cnt_stack; exact Hcur).
+  rewrite cnt_vtype, after_val_ne in Hreach1 by (apply cnt_stack; exact Hcur).
+  assert (Hfirst : reaches (uexec_step (cnt p n) s b)
+            (UR (cnt (uset_vtype p vt1) (n - 1)) (sadd s (flatten t1)) r1 false unilE) (k + n1)).
+  { eapply reaches_trans; [apply Hskip|].
+    rewrite uexec_cnt, acount_value by (try exact En; apply value_marker_not_noop; exact Hm).
+    rewrite (ufix_reaches _ _ _ _ _ _ Hreach1). exact Hreach1. }
+  destruct (n - 1 =? 0) eqn:En1.
+  - assert (n = 1) by lia. subst n. change (1 - 1) with 0 in *.
+    rewrite arr_n_zero in H. inversion H; subst v rest; clear H.
+    exists [t1], ((k + n1) + (1 + 0))%nat, vt1.
+    split; [cbn [rev map]; rewrite Hcv1; reflexivity|].
+    split; [cbn [forallb]; rewrite Hwf1; reflexivity|]. split; [reflexivity|].
+    split; [unfold budget in *; lia|]. split; [exact Hbr1|].
+    eapply reaches_trans; [exact Hfirst|].
+    apply reaches_step_then; [apply ucontb_can; reflexivity|].
+    apply reaches_eq. rewrite uexec_cnt, acount_close by (try exact Hcur; rewrite sadd_fail; exact Hs).
+    rewrite sadd_app. cbn [flatten_elems flat_map]. rewrite app_nil_r. reflexivity.
+  - destruct (IH (n - 1) r1 (v1 :: acc) v rest H ltac:(lia) Hbr1 (uset_vtype p vt1) (sadd s (flatten t1))
+                (uctx_vtype p vt1 Hp) ltac:(rewrite sadd_fail; exact Hs))
+      as (ts & m' & vt & Hv' & Hwf & Hlen & Hbud & Hbrest & Hreach).
+    exists (t1 :: ts), ((k + n1) + (1 + m'))%nat, vt.
+    split; [rewrite Hv'; cbn [rev map]; rewrite <- app_assoc, Hcv1; reflexivity|].
+    split; [cbn [forallb]; rewrite Hwf1, Hwf; reflexivity|]. split; [rewrite zlen_cons; lia|].
+    split; [unfold budget in *; lia|]. split; [exact Hbrest|].
+    eapply reaches_trans; [exact Hfirst|].
+    replace (sadd s (flatten_elems (t1 :: ts) ++ [EArrEnd]))
+      with (sadd (sadd s (flatten t1)) (flatten_elems ts ++ [EArrEnd]))
+      by (rewrite sadd_app, flatten_elems_cons, app_assoc; reflexivity).
+    apply reaches_step_then; [|exact Hreach].
+    apply ucontb_pos, nonempty_pos. intros ->.
+    eapply (arr_n_nonempty (uvalue f f) g (n - 1)); [lia|exact H|].
+    intros v0 r0 Hx. eapply uvalue_nonempty; exact Hx.
+Qed.
+
+(* ---------- the header of optimized (typed) containers ---------- *)
+Lemma ex_arrtyped_hdr rec p s b : u_t (up_cur p) = tArrayTyped ->
+  (u_s (up_cur p) =? sStart) || (u_s (up_cur p) =? sWithType0) || (u_s (up_cur p) =? sWithType1) = true ->
+  ubody rec p s b = ufix (of_ul (ustep_header p b) s).
+Proof. intros H H2. unfold ubody. rewrite H, H2. reflexivity. Qed.
+
+Lemma ex_objtyped_hdr rec p s b : u_t (up_cur p) = tObjectTyped ->
+  (u_s (up_cur p) =? sStart) || (u_s (up_cur p) =? sWithType0) || (u_s (up_cur p) =? sWithType1) = true ->
+  ubody rec p s b = ufix (of_ul (ustep_header p b) s).
+Proof. intros H H2. unfold ubody. rewrite H, H2. reflexivity. Qed.
+
+Lemma ex_hdr T p s b : T = tArrayTyped \/ T = tObjectTyped -> u_t (up_cur p) = T ->
+  (u_s (up_cur p) =? sStart) || (u_s (up_cur p) =? sWithType0) || (u_s (up_cur p) =? sWithType1) = true ->
+  uexec_step p s b = ufix (of_ul (ustep_header p b) s).
+Proof.
+  intros [-> | ->] H H2; rewrite uexec_step_eq; [apply ex_arrtyped_hdr|apply ex_objtyped_hdr]; assumption.
+Qed.
+
+Definition hdr (p : uparser) (T stp : Z) (st : ustate) (bt : btype) : uparser :=
+  v_push (u_push p (mku T stp)) st bt.
+
+Lemma typed_header T p s t r2 n r3 st : T = tArrayTyped \/ T = tObjectTyped -> uctx p ->
+  is_value_marker t = true -> marker_state t = Some st -> ubj_len r2 = LVal n r3 ->
+  reaches (UR (u_push p (mku T sStart)) s (t :: mCount :: r2) false unilE)
+          (UR (ul_push (hdr p T sWithLen st (marker_btype t)) n) s r3 false unilE) 3.
+Proof.
+  intros HT (Hbuf & Hmk & Hcur & Hv) Hm Hst Hl.
+  change 3%nat with (1 + (1 + (1 + 0)))%nat.
+  apply reaches_step_then; [apply ucontb_nonempty|].
+  rewrite (ex_hdr T) by (try exact HT; reflexivity).
+  unfold ustep_header. change (u_s (up_cur (u_push p (mku T sStart)))) with sStart. kred.
+  unfold ustep_type. rewrite Hst. rewrite (value_marker_not_noop t Hm).
+  cbn [of_ul]. rewrite ufix_ok.
+  change (v_push (uset_cur (u_push p (mku T sStart)) (with_step (up_cur (u_push p (mku T sStart))) sWithType0)) st
+            (marker_btype t)) with (hdr p T sWithType0 st (marker_btype t)).
+  apply reaches_step_then; [apply ucontb_nonempty|].
+  rewrite (ex_hdr T) by (try exact HT; reflexivity).
+  unfold ustep_header. change (u_s (up_cur (hdr p T sWithType0 st (marker_btype t)))) with sWithType0. kred.
+  change (mCount =? mCount) with true. kred. cbn [of_ul]. rewrite ufix_ok.
+  change (uset_cur (hdr p T sWithType0 st (marker_btype t))
+            (with_step (up_cur (hdr p T sWithType0 st (marker_btype t))) sWithType1))
+    with (hdr p T sWithType1 st (marker_btype t)).
+  apply reaches_step_then.
+  { apply ucontb_pos. destruct (ubj_len_rest _ _ _ Hl) as (pre & -> & Hp). rewrite zlen_app.
+    pose proof (zlen_nonneg r3). lia. }
+  apply reaches_eq.
+  rewrite (ex_hdr T) by (try exact HT; reflexivity).
+  unfold ustep_header. change (u_s (up_cur (hdr p T sWithType1 st (marker_btype t)))) with sWithType1. kred.
+  rewrite (ustep_len_ok _ r2 _ n r3) by assumption. reflexivity.
+Qed.
+
+Lemma marker_state_type t st : marker_state t = Some st ->
+  u_t st = tFixed \/ u_t st = tHighPrec \/ u_t st = tString \/ u_t st = tObject \/ u_t st = tArray.
+Proof.
+  unfold marker_state. intro H.
+  repeat match type of H with
+  | (if ?c then _ else _) = _ => destruct c; [inversion H; subst st; cbn [u_t mku]; tauto|]
+  end. discriminate.
+Qed.
+
+Lemma zero_sized_marker t st : zpay t = 0%nat -> marker_state t = Some st -> is_zero_sized st = true.
+Proof.
+  unfold zpay. intros H Hst. destruct ((t =? mZ) || (t =? mT) || (t =? mF)) eqn:E; [|discriminate].
+  assert (t = mZ \/ t = mT \/ t = mF) as [->|[->| ->]] by lia; inversion Hst; reflexivity.
+Qed.
+
+(* ---------- typed arrays ---------- *)
+Definition atyped_body (rec : uparser -> sink -> bytes -> ures) (p : uparser) (s : sink) (b : bytes) : ures :=
+  let l := up_lcur p in
+  let '(p1, s1, e0) :=
+    if u_s (up_cur p) =? sWithLen then let '(s1, e) := uvis s (EArrStart l (up_vtype p)) in (uset_step p sCont, s1, e)
+    else (p, s, unilE) in
+  if negb (unil e0) then UR p1 s1 b false e0
+  else if l =? 0 then
+    let '(s2, e) := uvis s1 EArrEnd in
+    if unil e then let '(p2, d) := upop_len_state (v_pop p1) in UR p2 s2 b d unilE else UR p1 s2 b true e
+  else
+    let p2 := uset_lcur p1 (up_lcur p1 - 1) in
+    value_nodone (rec (u_push p2 (up_vcur p2)) s1 b).
+
+Lemma ex_arrtyped rec p s b : u_t (up_cur p) = tArrayTyped ->
+  (u_s (up_cur p) =? sStart) || (u_s (up_cur p) =? sWithType0) || (u_s (up_cur p) =? sWithType1) = false ->
+  ubody rec p s b = ufix (atyped_body rec p s b).
+Proof. intros H H2. unfold ubody. rewrite H, H2. reflexivity. Qed.
+
+(* inside an open typed array: enclosing context p, n elements to go, element state st *)
+Definition tarr (p : uparser) (n : Z) (st : ustate) (bt : btype) : uparser :=
+  ul_push (hdr p tArrayTyped sCont st bt) n.
+
+Lemma tarr_stack p n st bt : u_t (up_cur p) <> tFail -> (zlen (up_stack (tarr p n st bt)) =? 0) = false.
+Proof. intro H. exact (push_stack_nonempty p (mku tArrayTyped sCont) H). Qed.
+
+Lemma tarr_uctx p n st bt : uctx p -> u_t st <> tFail -> uctx (tarr p n st bt).
+Proof.
+  intros (H1 & H2 & H3 & H4) Hst. split; [exact H1|]. split; [exact H2|]. split; [discriminate|].
+  intro H. exfalso. apply Hst. exact H.
+Qed.
+
+Lemma tarr_vtype p n st bt vt : uset_vtype (tarr p n st bt) vt = tarr p n st vt.
+Proof. reflexivity. Qed.
+
+Lemma vpop_vpush p st bt : vinv p -> v_pop (v_push p st bt) = uset_vtype p bt.
+Proof.
+  intro H. pdestruct p. destruct (vt =? tFail) eqn:E.
+  - assert (vt = tFail) by lia. destruct (H H0) as [H1 H2]. inversion H1. subst. reflexivity.
+  - reflexivity.
+Qed.
+
+Lemma typed_close p T st bt : uctx p ->
+  upop_len_state (v_pop (ul_push (hdr p T sCont st bt) 0)) = (uset_vtype p bt, zlen (up_stack p) =? 0).
+Proof.
+  intros (Hbuf & Hmk & Hcur & Hv). unfold upop_len_state, hdr.
+  replace (v_pop (ul_push (v_push (u_push p (mku T sCont)) st bt) 0))
+    with (ul_push (v_pop (v_push (u_push p (mku T sCont)) st bt)) 0).
+  - rewrite vpop_vpush by exact Hv. rewrite lpop_lpush. rewrite push_vtype.
+    rewrite upop_state_push by exact Hcur. reflexivity.
+  - pdestruct p. destruct (vt =? tFail); [destruct vstk|]; reflexivity.
+Qed.
+
+Lemma atyped_close rec p st bt s b : uctx p -> s_fail s = None ->
+  atyped_body rec (tarr p 0 st bt) s b = after_val (uset_vtype p bt) (sadd s [EArrEnd]) b.
+Proof.
+  intros Hp Hs. unfold atyped_body. change (u_s (up_cur (tarr p 0 st bt))) with sCont.
+  change (up_lcur (tarr p 0 st bt)) with 0. kred. rewrite unil_nil. kred.
+  rewrite uvis_ok by exact Hs. rewrite unil_nil. unfold tarr. rewrite typed_close by exact Hp. reflexivity.
+Qed.
+
+Lemma atyped_elem rec p n st bt s b : (n =? 0) = false ->
+  atyped_body rec (tarr p n st bt) s b = value_nodone (rec (u_push (tarr p (n - 1) st bt) st) s b).
+Proof.
+  intro H. unfold atyped_body. change (u_s (up_cur (tarr p n st bt))) with sCont.
+  change (up_lcur (tarr p n st bt)) with n. kred. rewrite unil_nil, H. reflexivity.
+Qed.
+
+Lemma atyped_withlen rec p n st bt s b : s_fail s = None ->
+  atyped_body rec (ul_push (hdr p tArrayTyped sWithLen st bt) n) s b =
+  atyped_body rec (tarr p n st bt) (sadd s [EArrStart n bt]) b.
+Proof.
+  intro Hs. unfold atyped_body.
+  change (u_s (up_cur (ul_push (hdr p tArrayTyped sWithLen st bt) n))) with sWithLen.
+  change (u_s (up_cur (tarr p n st bt))) with sCont.
+  change (up_lcur (ul_push (hdr p tArrayTyped sWithLen st bt) n)) with n.
+  change (up_lcur (tarr p n st bt)) with n.
+  change (up_vtype (ul_push (hdr p tArrayTyped sWithLen st bt) n)) with bt.
+  kred. rewrite uvis_ok by exact Hs. reflexivity.
+Qed.
+
+Lemma uexec_tarr p n st bt s b : uexec_step (tarr p n st bt) s b = ufix (atyped_body (uexec 2) (tarr p n st bt) s b).
+Proof. rewrite uexec_step_eq. apply ex_arrtyped; reflexivity. Qed.
+
+Definition zcost (t n : Z) : Z := if (zpay t =? 0)%nat then n else 0.
+
+Lemma arr_typed_loop f t st : payload_spec f -> is_value_marker t = true -> marker_state t = Some st ->
+  forall g n b acc v rest,
+  arr_n (ubj_payload f t) g n b acc = RValue v rest -> 0 < n -> all_bytes b = true ->
+  forall p s bt, uctx p -> s_fail s = None ->
+  exists ts m vt, v = CArr (rev acc ++ map (fun t => cv (value_of t)) ts) /\
+    forallb wf_tree ts = true /\ forallb (tree_matches (marker_btype t)) ts = true /\ zlen ts = n /\
+    Z.of_nat m + 3 * zlen rest + ztc rest <= 3 * zlen b + ztc b + zcost t n /\ all_bytes rest = true /\
+    reaches (uexec_step (tarr p n st bt) s b)
+            (after_val (uset_vtype p vt) (sadd s (flatten_elems ts ++ [EArrEnd])) rest) m.
+Proof.
+  intros Hspec Hm Hst.
+  assert (Hstt : u_t st <> tFail /\ u_t st <> tArrayTyped).
+  { destruct (marker_state_type _ _ Hst) as [E|[E|[E|[E|E]]]]; rewrite E; split; discriminate. }
+  destruct Hstt as [Hst1 Hst2].
+  induction g as [|g IH]; intros n b acc v rest H Hn Hb p s bt Hp Hs.
+  { rewrite arr_n_O in H. destruct (n <=? 0) eqn:E; [lia|discriminate]. }
+  rewrite arr_n_S in H. destruct (n <=? 0) eqn:E; [lia|]. clear E.
+  destruct (ubj_payload f t b) as [v1 r1| | |] eqn:Hv1; try discriminate.
+  pose proof Hp as (Hbuf & Hmk & Hcur & Hv).
+  assert (En : (n =? 0) = false) by lia.
+  set (C := tarr p (n - 1) st bt).
+  assert (HC : uctx C) by (apply tarr_uctx; assumption).
+  destruct (Hspec t st b v1 r1 Hv1 Hm Hst Hb C s HC Hs)
+    as (t1 & n1 & vt1 & Hwf1 & Hmat1 & Hcv1 & Hbud1 & Hbr1 & Hnd1 & Hreach1).
+  rewrite vwrap_ne in Hnd1 by (apply tarr_stack; exact Hcur).
+  unfold C in Hreach1. rewrite tarr_vtype, after_val_ne in Hreach1 by (apply tarr_stack; exact Hcur).
+  assert (Hfirst : reaches (uexec_step (tarr p n st bt) s b)
+            (UR (tarr p (n - 1) st vt1) (sadd s (flatten t1)) r1 false unilE) n1).
+  { rewrite uexec_tarr, atyped_elem by exact En. rewrite uexec_fuel by exact Hst2.
+    fold C. rewrite Hnd1. unfold C. rewrite (ufix_reaches _ _ _ _ _ _ Hreach1). exact Hreach1. }
+  destruct (n - 1 =? 0) eqn:En1.
+  - assert (n = 1) by lia. subst n. change (1 - 1) with 0 in *.
+    rewrite arr_n_zero in H. inversion H; subst v rest; clear H.
+    exists [t1], (n1 + (1 + 0))%nat, vt1.
+    split; [cbn [rev map]; rewrite Hcv1; reflexivity|].
+    split; [cbn [forallb]; rewrite Hwf1; reflexivity|].
+    split; [cbn [forallb]; rewrite Hmat1; reflexivity|]. split; [reflexivity|].
+    split. { unfold budget, zcost, zpay in *. destruct ((t =? mZ) || (t =? mT) || (t =? mF)); cbn [Nat.eqb] in *; lia. }
+    split; [exact Hbr1|].
+    eapply reaches_trans; [exact Hfirst|].
+    apply reaches_step_then; [apply ucontb_can; reflexivity|].
+    apply reaches_eq. rewrite uexec_tarr, atyped_close by (try exact Hp; rewrite sadd_fail; exact Hs).
+    rewrite sadd_app. cbn [flatten_elems flat_map]. rewrite app_nil_r. reflexivity.
+  - destruct (IH (n - 1) r1 (v1 :: acc) v rest H ltac:(lia) Hbr1 p (sadd s (flatten t1)) vt1
+                Hp ltac:(rewrite sadd_fail; exact Hs))
+      as (ts & m' & vt & Hv' & Hwf & Hmat & Hlen & Hbud & Hbrest & Hreach).
+    exists (t1 :: ts), (n1 + (1 + m'))%nat, vt.
+    split; [rewrite Hv'; cbn [rev map]; rewrite <- app_assoc, Hcv1; reflexivity|].
+    split; [cbn [forallb]; rewrite Hwf1, Hwf; reflexivity|].
+    split; [cbn [forallb]; rewrite Hmat1, Hmat; reflexivity|]. split; [rewrite zlen_cons; lia|].
+    split. { unfold budget, zcost, zpay in *. destruct ((t =? mZ) || (t =? mT) || (t =? mF)); cbn [Nat.eqb] in *; lia. }
+    split; [exact Hbrest|].
+    eapply reaches_trans; [exact Hfirst|].
+    replace (sadd s (flatten_elems (t1 :: ts) ++ [EArrEnd]))
+      with (sadd (sadd s (flatten t1)) (flatten_elems ts ++ [EArrEnd]))
+      by (rewrite sadd_app, flatten_elems_cons, app_assoc; reflexivity).
+    apply reaches_step_then; [|exact Hreach].
+    destruct (zpay t) as [|z] eqn:Ez.
+    + apply ucontb_can. unfold can_step_without_input.
+      change (u_t (up_cur (tarr p (n - 1) st vt1))) with tArrayTyped.
+      change (u_s (up_cur (tarr p (n - 1) st vt1))) with sCont.
+      change (up_vcur (tarr p (n - 1) st vt1)) with st. kred.
+      rewrite (zero_sized_marker t st Ez Hst). apply orb_true_r.
+    + apply ucontb_pos, nonempty_pos. intros ->.
+      eapply (arr_n_nonempty (ubj_payload f t) g (n - 1)); [lia|exact H|].
+      intros v0 r0 Hx. pose proof (payload_nonempty _ _ _ _ Hx Hm). lia.
 Qed.
